@@ -96,12 +96,31 @@ struct CapSink {
     got: Captured,
     /// what `is_connected()` reports; membership in the registry, not this flag, decides who gets a broadcast
     connected: bool,
+    /// 0: accept; 1/2/3: refuse the push with Full / Disconnected / Other (back-pressure or a transport that is going away:
+    /// the peer is still a member until it is removed, a refused push changes nothing in the registry)
+    refuse: bool,
+}
+
+/// Which refusal (0 none, 1 Full, 2 Disconnected, 3 Other) the refusing sink answers a broadcast with: a pure function of the
+/// broadcast's token (the first run of digits in its path), so concurrent broadcasts do not need shared state.
+fn refusal_for(path: &str) -> u8 {
+    let digits: String = path.chars().skip_while(|c| !c.is_ascii_digit()).take_while(|c| c.is_ascii_digit()).collect();
+    match digits.parse::<u64>() {
+        Ok(tok) if tok % 5 == 1 => 1 + (tok / 5 % 3) as u8,
+        _ => 0,
+    }
 }
 impl PeerSink for CapSink {
     fn is_connected(&self) -> bool {
         self.connected
     }
     fn send_notify(&self, method: &str, body: NotifyBody) -> Result<(), PeerSendError> {
+        match if self.refuse { refusal_for(method) } else { 0 } {
+            1 => return Err(PeerSendError::Full),
+            2 => return Err(PeerSendError::Disconnected),
+            3 => return Err(PeerSendError::Other("harness: refused".into())),
+            _ => {}
+        }
         let fmt = body.body_format() as u16;
         // widen the window in which a broadcast is sending outside the registry lock
         for _ in 0..200 {
@@ -140,7 +159,7 @@ impl Sys {
             Op::Insert(p) => {
                 // peer 2's sink always reports "not connected" (e.g. the window between its channel closing and the
                 // disconnect path removing it): it is still present, so it still gets every broadcast and a result
-                self.reg.insert(PeerHandle::new(pid(p), Arc::new(CapSink { got: self.sinks[p as usize].clone(), connected: p != 2 })));
+                self.reg.insert(PeerHandle::new(pid(p), Arc::new(CapSink { got: self.sinks[p as usize].clone(), connected: p != 2, refuse: p == 3 })));
                 (Ret::Unit, None)
             }
             Op::Remove(p) => (Ret::Bool(self.reg.remove(pid(p)).is_some()), None),
@@ -170,6 +189,9 @@ impl Sys {
                         bad_problem = Some(format!("a broadcast whose body cannot be serialized returned Ok={} and was delivered {delivered} times", r.is_ok()));
                     }
                 }
+                // every fifth broadcast peer 3's sink refuses the push (queue full, going away, other): it gets an Err in the
+                // result map, nothing is delivered to it, and it stays a member (the model's next operations check that)
+                let refusal: u8 = refusal_for(&path);
                 let (res, body, fmt): (HashMap<PeerId, Result<(), PeerSendError>>, Vec<u8>, u16) = match tok % 4 {
                     0 => {
                         let v = json!({"tok": tok});
@@ -195,13 +217,21 @@ impl Sys {
                 let mut set: Vec<u8> = res.keys().map(|id| unpid(*id)).collect();
                 set.sort();
                 let mut problem = bad_problem;
-                if res.values().any(|r| r.is_err()) {
-                    problem = Some("a capturing sink reported an error".to_string());
+                for (id, r) in &res {
+                    let refused_here = refusal != 0 && unpid(*id) == 3;
+                    let fits = match (r, refusal) {
+                        (Ok(()), _) => !refused_here,
+                        (Err(PeerSendError::Full), 1) | (Err(PeerSendError::Disconnected), 2) | (Err(PeerSendError::Other(_)), 3) => refused_here,
+                        _ => false,
+                    };
+                    if !fits {
+                        problem = Some(format!("result for peer {} is {r:?} (its sink {})", unpid(*id), if refused_here { format!("refused with mode {refusal}") } else { "accepted".into() }));
+                    }
                 }
                 for p in 0..NP as u8 {
                     let got = self.sinks[p as usize].lock().unwrap();
                     let mine: Vec<_> = got.iter().filter(|(m, _, _)| *m == path).collect();
-                    let want = if set.contains(&p) { 1 } else { 0 };
+                    let want = if set.contains(&p) && !(refusal != 0 && p == 3) { 1 } else { 0 };
                     if mine.len() != want {
                         problem = Some(format!("peer {p}: {} deliveries of broadcast {tok}, result map says {want}", mine.len()));
                     } else if let Some((_, b, f)) = mine.first() {
@@ -682,7 +712,7 @@ pub fn run(args: &Args) -> Report {
         for t in 0..trials {
             let prior_owner = t % 2 == 1;
             let reg = PeerRegistry::new();
-            let sink = || Arc::new(CapSink { got: Arc::new(Mutex::new(vec![])), connected: true });
+            let sink = || Arc::new(CapSink { got: Arc::new(Mutex::new(vec![])), connected: true, refuse: false });
             reg.insert(PeerHandle::new(pid(0), sink()));
             reg.insert(PeerHandle::new(pid(1), sink()));
             if prior_owner {
